@@ -78,6 +78,7 @@ func classIsA(c, cls string) bool {
 const prelude = `class Pt
   attr x: any, y: any
   init(@x, @y); end
+  pure def tag: any then :pt
 end
 class Pt3 < Pt
   attr z: any
@@ -89,6 +90,7 @@ class Bx
 end
 class PtO < Pt
   pure def y: any then :ovr
+  pure def tag: any then :pto
 end
 const C_INT = 7
 const C_STR = "foo"
